@@ -66,6 +66,15 @@ class Env:
                     sock.sendall(data)
                 except ConnectionError:
                     pass
+        elif kind == "send2":
+            # the same bytes arriving as two TCP segments (both there before the next round)
+            slot = ev[1]
+            for part in (bytes.fromhex(ev[2]), bytes.fromhex(ev[3])):
+                for sock in (self.w.clients[slot].sock, self.s.clients[slot].sock):
+                    try:
+                        sock.sendall(part)
+                    except ConnectionError:
+                        pass
         elif kind == "fin":
             self.w.clients[ev[1]].fin()
             self.s.clients[ev[1]].sock.close()
